@@ -28,12 +28,14 @@ REQUIRED_THEOREMS = ['CfVerif.C05.' + t for t in (
     'add_config_partial_failure', 'configured_list_stable', 'accepted_variables_are_configured_list',
     'synclogger_fifo', 'sample_queued_once', 'next_takes_head', 'ends_at_disconnect',
     'gen_sl_statement_order', 'inv_initial', 'no_sample_lost', 'interleaved_fifo',
+    'gen_packet_fresh', 'wire_is_what_was_sent', 'create_wire_enumerates', 'history_wire_is_sent', 'reused_packet_counterexample',
     # Gen obligations
     'gen_types_single_code', 'gen_id_from_cstring', 'gen_logvar_init', 'gen_conf_init', 'gen_add_variable', 'gen_flag_setters',
     'gen_cmd_select', 'gen_setup_elements', 'gen_packet_size', 'gen_split_arith', 'gen_create', 'gen_start_stop_delete', 'gen_unpack',
     'gen_add_config', 'gen_accept_reject', 'gen_log_misc', 'gen_rx_tests', 'gen_rx_effects', 'gen_cmds_distinct', 'gen_wire_constants',
     'gen_synclogger')]
-TRUSTED = ['harness/corr/c05.py extractor + correspondence harness (fake cf at send_packet/link/platform/disconnected, non-blocking Queue) + spec twin',
+TRUSTED = ['harness/corr/c05.py extractor + correspondence harness (fake cf at send_packet/link/platform/disconnected: a RECORDING link that keeps the '
+           'packet objects and serialises header and data only after the API call returned and again after the whole case; non-blocking Queue) + spec twin',
            'Spec/C05: firmware view of create/append messages (floor((len-2)/3) entries, logType low nibble = fetch type, high nibble = stored type), '
            'log data packet layout blk ts24 values, effect of acknowledgements; cross-checked against harness/sim/crazyflie_device.py in search()',
            'Base/Struct model of struct.unpack for <B <H <L <b <h <i <f <e; float32/FP16 values are carried as bit patterns (binary16/32 -> double '
@@ -289,6 +291,40 @@ def extract(ctx):
         f = X.find(sl, fn)
         g.strings('sl' + fn.strip('_').capitalize() + 'Body', [ast.unparse(s).replace('\n', ' ; ') for s in f.body
                                                               if not (isinstance(s, ast.Expr) and isinstance(s.value, ast.Constant))])
+    # packet freshness: every message is a fresh CRTPPacket constructed inside the loop / the sending function; no packet object
+    # is reused across iterations or stored on self (links serialise later than send_packet returns)
+    loops = [n for n in ast.walk(cr) if isinstance(n, ast.While)]
+    X.expect(len(loops) == 1, 'LogConfig.create: expected one while loop')
+    body = [stn for stn in loops[0].body if not (isinstance(stn, ast.Expr) and isinstance(stn.value, ast.Call)
+                                                   and ast.unparse(stn.value.func).startswith('logger.'))]
+    g.strings('createLoopBody', [ast.unparse(stn) for stn in body])
+    ctor_in_loop = [stn for stn in body if isinstance(stn, ast.Assign) and ast.unparse(stn) == 'pk = CRTPPacket()']
+    pk_assigns = [n for n in ast.walk(cr) if isinstance(n, ast.Assign) and any(ast.unparse(t) == 'pk' for t in n.targets)]
+    send_in_loop = [n for n in ast.walk(loops[0]) if isinstance(n, ast.Call) and ast.unparse(n.func).endswith('send_packet')]
+    all_sends = [n for n in ast.walk(cr) if isinstance(n, ast.Call) and ast.unparse(n.func).endswith('send_packet')]
+    fresh = (len(ctor_in_loop) == 1 and len(pk_assigns) == 1 and body and body[0] is ctor_in_loop[0] and len(send_in_loop) == 1
+             and len(all_sends) == 1 and ast.unparse(all_sends[0].args[0]) == 'pk')
+    g.raw('def createPacketInLoop : Bool := ' + ('true' if fresh else 'false'))
+    sites = []
+    for cls in (lc, lg):
+        for f in cls.body:
+            if not isinstance(f, ast.FunctionDef):
+                continue
+            sends = [n for n in ast.walk(f) if isinstance(n, ast.Call) and ast.unparse(n.func).endswith('send_packet')]
+            if not sends:
+                continue
+            ctors = [n for n in ast.walk(f) if isinstance(n, ast.Assign) and ast.unparse(n) == 'pk = CRTPPacket()']
+            args = sorted({ast.unparse(n.args[0]) if n.args else '?' for n in sends})
+            sites.append('%s.%s: sends=%d ctors=%d arg=%s' % (cls.name, f.name, len(sends), len(ctors), ','.join(args)))
+    g.strings('packetSites', sites)
+    stored = []
+    for n in ast.walk(tree):
+        if isinstance(n, ast.Assign) and any(isinstance(t, ast.Attribute) for t in n.targets):
+            v = ast.unparse(n.value)
+            if 'CRTPPacket(' in v or v in ('pk', 'packet'):
+                stored.append(ast.unparse(n))
+    g.strings('packetsStoredOnAttributes', stored)
+
     # statement order of the loops of connect() / disconnect() (the atomic steps of the interleaving model)
     def loop_order(fn):
         f = X.find(sl, fn)
@@ -407,18 +443,19 @@ class Real:
                 self_.port_cbs.remove((port, cb))
 
             def send_packet(self_, pk, expected_reply=(), resend=False, timeout=0.2):
-                if pk.port == 5 and pk.channel == 1:
-                    sess.ev.append('tx:%s:%s' % (hexs(pk.data), ','.join(str(x) for x in expected_reply) or '-'))
-                elif pk.port == 5 and pk.channel == 0:
-                    sess.ev.append('tocfetch')
-                else:
-                    sess.ev.append('tx?:%d:%d:%s' % (pk.port, pk.channel, hexs(pk.data)))
+                # recording link (same idea as harness/corr/c08.py): keep the packet OBJECT; header and data are read only after
+                # the API call has returned (Real._late) and once more at `txlog` / the end of the case, like a driver out-queue
+                # or the resend timer that serialises later than send_packet returns
+                rec = [pk, tuple(expected_reply), None]
+                sess.sent.append(rec)
+                sess.ev.append(rec)
         self.cf = Cf()
         self.log = L.Log(self.cf)
         self.cf.log = self.log
         self.log.block_added_cb.add_callback(lambda c: self.ev.append('badd:%d' % self.hof(c)))
         self.confs = []
         self.sls = []
+        self.sent = []           # every packet object handed to send_packet: [packet, expected_reply, serialisation reported]
         self.calls = {}          # SyncLogger index -> Stepper of the connect()/disconnect() call in progress
 
         class NBQueue(queue.Queue):
@@ -508,6 +545,8 @@ class Real:
         """execute one request; returns the reply line"""
         op = words[0]
         ty = (lambda s: '' if s == '-' else s)
+        if op == 'txlog':
+            return 'ok ' + (';'.join(t for t in self.txlog() if t.startswith('tx:')) or '-')
         if op == 'dump':
             c = self.confs[int(words[1])]
             vs = ','.join('%d:%d:%d:%d:%d' % (name_key(v.name), v.fetch_as, v.stored_as, v.is_toc_variable(), v.address) for v in c.variables)
@@ -591,10 +630,33 @@ class Real:
                 return 'bad-op'
         except Exception as e:
             err = exc_enum(e)
+        self._late()
         rep = '%s outs=%s st=%s' % ('ok' if err is None else 'err:' + err, ';'.join(self.ev) or '-', self.digest())
         if op in ('slbegin', 'slrun'):
             rep += ' left=%d' % (0 if err is not None else left)
         return rep
+
+    @staticmethod
+    def _ser(pk, expected):
+        """what the link puts on the wire for this packet object NOW"""
+        hdr = pk.get_header()
+        port, chan = (hdr >> 4) & 0x0F, hdr & 0x03
+        if port == 5 and chan == 1:
+            return 'tx:%s:%s' % (hexs(pk.data), ','.join(str(x) for x in expected) or '-')
+        if port == 5 and chan == 0:
+            return 'tocfetch'
+        return 'tx?:%d:%d:%s' % (port, chan, hexs(pk.data))
+
+    def _late(self):
+        """serialise the packet objects recorded during the call that just returned"""
+        for k, e in enumerate(self.ev):
+            if isinstance(e, list):
+                e[2] = self._ser(e[0], e[1])
+                self.ev[k] = e[2]
+
+    def txlog(self):
+        """serialise EVERY packet object of the session again (a link that transmits after a burst of calls)"""
+        return [self._ser(rec[0], rec[1]) for rec in self.sent if rec[2] is not None]
 
     def close(self):
         for stp in list(self.calls.values()):
@@ -1196,6 +1258,7 @@ def gen_cases(ctx):
 def correspond(ctx):
     cases = gen_cases(ctx)
     for c in cases:
+        c.do('txlog')          # the link transmits after the whole burst: every packet object serialised again
         c.r.close()
     lines = [l for c in cases for l in c.lines]
     replies = ctx.lean(DRIVER, lines)
@@ -1342,6 +1405,43 @@ def search(ctx):
         if not ok:
             ctx.witness('create-enumerates', 'create/append messages do not enumerate the variables once each in order',
                         {'n_one_byte_variables': n}, messages=[m.hex() for m in msgs], firmware_view=seen, expected=expected)
+
+    # (2c) what reaches the wire when the link serialises LATER than send_packet returns (out-queue, resend timer): a burst of
+    #      start/stop/delete calls on several configurations, every packet object serialised only at the end
+    for trial in range(150 if th else 40):
+        r = Real()
+        els = [(k, k, 'uint8_t') for k in range(30)]
+        _connect(r, 5, els)
+        ncfg = rng.choice([1, 2, 3])
+        sizes = [rng.choice([1, 9, 10, 11, 18, 19, 20, 26]) for _ in range(ncfg)]
+        for h, n in enumerate(sizes):
+            r.do(['newconf', '100'])
+            for k in rng.sample(range(30), n):
+                r.confs[h].add_variable(name_str(k), 'uint8_t')
+            r.do(['addconfig', str(h)])
+        script = []
+        for h in range(ncfg):
+            script.append(('start', h))
+        for _ in range(rng.randrange(0, 4)):
+            script.append((rng.choice(['stop', 'delete', 'start']), rng.randrange(ncfg)))
+        for op, h in script:
+            r.do([op, str(h)])
+        wire = [bytes.fromhex(t.split(':')[1].replace('-', '')) for t in r.txlog() if t.startswith('tx:')]
+        blocks, order_ok = {}, True
+        for m in wire:
+            if m[0] == 6:
+                blocks[m[1]] = list(_fw_entries(m))
+            elif m[0] == 7:
+                if m[1] not in blocks:
+                    order_ok = False
+                else:
+                    blocks[m[1]] += _fw_entries(m)
+        want = {c.id: [((v.stored_as << 4) | v.fetch_as, name_key(v.name)) for v in c.variables] for c in r.confs}
+        if not order_ok or any(len(m) > 30 for m in wire) or {i: blocks.get(i) for i in want} != want:
+            ctx.witness('create-wire-late-serialisation', 'with a link that serialises the queued packet objects after the calls returned, the block-creation '
+                        'messages on the wire do not enumerate the variables (a packet object is reused / mutated after send_packet)',
+                        {'variables_per_config': sizes, 'calls': script}, wire=[m.hex() for m in wire][:8], expected={k: len(v) for k, v in want.items()})
+            break
 
     # (3) log data decodes to the device's values (every fetch type, extremes), 24-bit timestamp
     for trial in range(1500 if th else 300):
